@@ -802,7 +802,7 @@ static PcaCase genPca()
   std::vector<double> A((size_t)nv * nv, 0.);
   for (int i = 0; i < nv; i++)
     for (int j = 0; j <= i; j++) A[(size_t)i * nv + j] = (i == j) ? G::i(3, 20) / 10. : G::i(-15, 15) / 10.;
-  const double scale = G::pick({1., 1., 1e-2, 1e3});
+  const double scale = G::pick({1., 1., 1e-2, 1e3, 1e-6, 1e6}); // incl. data in "small" units (variances below 1e-10)
   std::vector<double> mean(nv);
   for (int k = 0; k < nv; k++) mean[k] = G::pick({0., 0., 10., -50., 100.});
   c.z.resize((size_t)n * nv);
